@@ -904,6 +904,11 @@ def check_comp(case):
             wrt = [f"iv.x{i}" for i in range(len(incols))]
             J = prob.compute_totals(of=of, wrt=wrt)
         except Exception as e:
+            if 'Kriging Hyper-parameter optimization failed' in str(e) and any(sp['type'] == 'kriging' for sp in specs):
+                # documented raise of KrigingSurrogate.train (e.g. the first data set of a retraining case is degenerate)
+                res.discard = 'kriging:hyper-parameter-optimisation-failed (documented raise)'
+                res.classes = cls
+                return res
             sig = _exc_sig(e, ('F28e|' if known_nn_before_rs(case) else '') + 'comp')
             if sig is None:
                 raise
